@@ -45,3 +45,61 @@ Definition ident_spec_ok (c : qcfg * list Z * bool * bytes) : bool :=
   let '(cfg, name, ok, gb) := c in
   if ok then value_is (ident_value gb) name && (if ascii_only cfg then all_ascii gb else true) else true.
 Definition check_ident_spec := mismatches ident_spec_ok.
+
+(* ---- numbers ---- *)
+From V Require Import C01.Num C01.SpecNumeric.
+
+(* printNonNegativeFloat: (minifyWhitespace, float64 bits, FormatFloat text, Go bytes, Go flag) *)
+Definition number_ok (c : bool * Z * bytes * bytes * bool) : bool :=
+  let '(mw, bits, s, gb, gflag) := c in
+  let '(mb, mflag) := printNonNegativeFloat mw bits s in
+  zlist_eqb mb gb && Bool.eqb mflag gflag.
+Definition check_number := mismatches number_ok.
+
+(* specification side: the printed text is a NumericLiteral whose MV is the MV
+   of FormatFloat's text, or (hex / small integer path) exactly the float's
+   integer value; and the flag is set iff the text is a bare run of digits *)
+Definition number_spec_ok (c : bool * Z * bytes * bytes * bool) : bool :=
+  let '(mw, bits, s, gb, gflag) := c in
+  match mv gb, mv s with
+  | Some a, Some b =>
+      (dec_eqb a b || match float_int bits with Some v => dec_eqb a (v, 0) | None => false end)
+      && Bool.eqb gflag (forallb dig gb)
+  | _, _ => false
+  end.
+Definition check_number_spec := mismatches number_spec_ok.
+
+(* printNumber: (mw, minifySyntax, level, withNesting, prefix, bits, FormatFloat |v|, Go bytes) *)
+Definition printnumber_ok (c : bool * bool * Z * Z * bytes * Z * bytes * bytes) : bool :=
+  let '(mw, ms, level, wn, prefix, bits, s, gb) := c in
+  zlist_eqb (print_number mw ms level wn prefix bits s) gb.
+Definition check_printnumber := mismatches printnumber_ok.
+
+(* ---- glue through api.Transform ---- *)
+(* (source literal bytes, literal cut out of the output, units the generator meant) *)
+Definition glue_string_ok (c : bytes * bytes * list Z) : bool :=
+  let '(src, out, u) := c in value_is (literal_value src) u && value_is (literal_value out) u.
+Definition check_glue_string := mismatches glue_string_ok.
+
+(* does the decimal m*10^e round to the float64 with these bits (round to
+   nearest, ties to even)?  exact integer arithmetic: with the float
+   F = M*2^x, its neighbours' midpoints are (2M-1)*2^(x-1) and (2M+1)*2^(x-1)
+   (for the smallest normal M the lower neighbour is half as far). *)
+Definition rounds_to (bits : Z) (me : Z * Z) : bool :=
+  let '(m, e) := me in
+  let '(M, x) := float_mx bits in
+  (* compare m*10^e with lo = (4M - d)*2^(x-2), hi = (4M+2)*2^(x-2) *)
+  let d := if (M =? 4503599627370496) && negb (x =? -1074) then 1 else 2 in
+  let s2 := Z.min (x - 2) 0 in let s10 := Z.min e 0 in
+  (* scale everything by 2^(-s2) * 10^(-s10) *)
+  let v := m * 10 ^ (e - s10) * 2 ^ (- s2) in
+  let lo := (4 * M - d) * 2 ^ (x - 2 - s2) * 10 ^ (- s10) in
+  let hi := (4 * M + 2) * 2 ^ (x - 2 - s2) * 10 ^ (- s10) in
+  let even := Z.even M in
+  (if even then (lo <=? v) && (v <=? hi) else (lo <? v) && (v <? hi)).
+
+(* (float64 bits of the input's value, literal cut out of the output) *)
+Definition glue_number_ok (c : Z * bytes) : bool :=
+  let '(bits, out) := c in
+  match mv out with Some me => rounds_to bits me | None => false end.
+Definition check_glue_number := mismatches glue_number_ok.
